@@ -68,7 +68,7 @@ template <class S> void lattice(vf::Ctx& c, const char* tname, int p, int ni) {
   long double eps = std::numeric_limits<S>::epsilon();
   std::vector<int> ns = {p, p + 1, 2 * p, 50, 500};
   int n = ns[ni];
-  std::vector<long double> kappas = {1, 1e2L, 1e4L, 1e6L};
+  std::vector<long double> kappas = {1, 1e2L, 3e2L, 1e4L, 1e6L};
   std::vector<long double> mags = dbl ? std::vector<long double>{powl(2, -27), powl(2, -10), 1, powl(2, 10)} : std::vector<long double>{powl(2, -13), powl(2, -6), 1, powl(2, 6)};
   for (long double kappa : kappas) for (long double mag : mags) for (int cons = 0; cons < 3; ++cons) for (int w = 0; w < 4; ++w) for (int prec = 0; prec < 4; ++prec) {
     if (p == 1 && kappa != 1) continue;
@@ -80,10 +80,10 @@ template <class S> void lattice(vf::Ctx& c, const char* tname, int p, int ni) {
     long double smax = svd.singularValues()(0), smin = svd.singularValues()(p - 1);
     long double kap = smax / smin;
     std::string params = vf::JO().str("type", tname).i("estimate_size", p).i("data_size", n).num("kappa_nominal", kappa).num("kappa_actual", kap).num("magnitude", mag).i("consistency", cons).i("weights", w).i("preconditioner", prec).done();
-    if (!(kap < 1e6L * 1.0001L) || kap * kap * eps > 0.05L) { c.trivial(); continue; }   // outside the quantifier / normal equations carry no digits in this precision
+    if (!(kap < 1e6L * 1.0001L) || 8 * p * kap * kap * eps > 0.5L) { c.trivial(); continue; }   // outside the quantifier / normal equations carry no digits in this precision
     LV x0 = Jl.householderQr().solve(Yl);
     LV xref = x0; if (P.precond) for (int j = 0; j < p; ++j) xref(j) = (long double)P.Adiag(j) * x0(j) + (long double)P.b(j);
-    long double tolx = 64 * p * eps * kap * kap * (x0.norm() + Yl.norm() / smax);
+    long double tolx = 8 * p * eps * kap * kap * (x0.norm() + Yl.norm() / smax);
     Vec got[2];
     for (int solver = 0; solver < (P.weighted ? 1 : 2); ++solver) {
       LeastSquares<S> ls(p);
@@ -113,11 +113,11 @@ template <class S> void lattice(vf::Ctx& c, const char* tname, int p, int ni) {
 }
 
 // ---- S: one solver object, sequences of problems ------------------------------------------------------------------
-struct Op { int p, nsel, solver, prec; };   // solver 0 Cholesky, 1 SVD, 2 weighted
+struct Op { int p, nsel, solver, prec; };   // solver 0 Cholesky, 1 SVD, 2 weighted; prec 0 keep the current preconditioner, 1 setPreconditionner(A,b), 2 setPreconditionner(A)
 template <class S> void sequences(vf::Ctx& c, const char* tname, int depth, int firstOp) {
   using Vec = typename Problem<S>::Vec;
   std::vector<Op> ops;
-  for (int p = 1; p <= 3; ++p) for (int ns = 0; ns < 3; ++ns) for (int s = 0; s < 3; ++s) for (int pr = 0; pr < 2; ++pr) ops.push_back({p, ns, s, pr});
+  for (int p = 1; p <= 3; ++p) for (int ns = 0; ns < 3; ++ns) for (int s = 0; s < 3; ++s) for (int pr = 0; pr < 3; ++pr) ops.push_back({p, ns, s, pr});
   const int NOPS = (int)ops.size();
   long double eps = std::numeric_limits<S>::epsilon();
   uint64_t total = 1; for (int i = 1; i < depth; ++i) total *= NOPS;
@@ -127,14 +127,21 @@ template <class S> void sequences(vf::Ctx& c, const char* tname, int depth, int 
     uint64_t r = k; for (int i = 1; i < depth; ++i) { seq[i] = r % NOPS; r /= NOPS; }
     LeastSquares<S> ls(ops[seq[0]].p);
     int curP = ops[seq[0]].p;
+    // model of the configured preconditioner: identity / zero after construction and after setEstimateSize
+    Vec mA = Vec::Ones(curP), mb = Vec::Zero(curP);
     for (int i = 0; i < depth; ++i) {
       const Op& o = ops[seq[i]];
       int n = o.nsel == 0 ? o.p : o.nsel == 1 ? o.p + 2 : 8;
-      Problem<S> P = make_problem<S>(n, o.p, 3, 1, 1, o.solver == 2 ? 1 : 0, o.prec ? 2 : 0, i + 1);
-      if (o.p != curP || i > 0) { ls.setEstimateSize(o.p); curP = o.p; }   // a caller changing the estimate size resets the preconditioner too
+      Problem<S> P = make_problem<S>(n, o.p, 3, 1, 1, o.solver == 2 ? 1 : 0, 0, i + 1);
+      if (o.p != curP) { ls.setEstimateSize(o.p); curP = o.p; mA = Vec::Ones(curP); mb = Vec::Zero(curP); }   // the estimate size changes only when the problem needs it
+      if (o.prec) {
+        Vec A(o.p), b(o.p); for (int j = 0; j < o.p; ++j) { A(j) = (S)(j % 2 ? 0.5 : 3.0) + (S)(0.25 * i); b(j) = (S)(0.25 * (j + 1) + i); }
+        typename Problem<S>::Mat Am = A.asDiagonal();
+        if (o.prec == 1) { ls.setPreconditionner(Am, b); mA = A; mb = b; } else { ls.setPreconditionner(Am); mA = A; mb = Vec::Zero(o.p); }
+      }
       c.transitions(); c.eval(); if (i) c.nontrivial();
-      auto params = [&]() { std::vector<std::string> h; for (int j = 0; j <= i; ++j) { const Op& q = ops[seq[j]]; char b[96]; snprintf(b, 96, "problem(p=%d,n=%d,%s,%s)", q.p, q.nsel == 0 ? q.p : q.nsel == 1 ? q.p + 2 : 8, q.solver == 0 ? "Cholesky" : q.solver == 1 ? "SVD" : "weighted", q.prec ? "A x+b" : "no preconditioner"); h.push_back(b); } return vf::JO().str("type", tname).strs("history", h).done(); };
-      // the design matrix the solver exposes must have the current estimate size as its column count once the data size is set
+      auto params = [&]() { std::vector<std::string> h; for (int j = 0; j <= i; ++j) { const Op& q = ops[seq[j]]; char b[128]; snprintf(b, 128, "problem(p=%d,n=%d,%s,%s)", q.p, q.nsel == 0 ? q.p : q.nsel == 1 ? q.p + 2 : 8, q.solver == 0 ? "Cholesky" : q.solver == 1 ? "SVD" : "weighted", q.prec == 0 ? "preconditioner kept" : q.prec == 1 ? "setPreconditionner(A,b)" : "setPreconditionner(A)"); h.push_back(b); } return vf::JO().str("type", tname).strs("history", h).done(); };
+      // the design matrix the solver exposes must be able to hold the problem once the data size is set
       ls.setDataSize(n);
       if (ls.getJ().cols() < o.p || ls.getJ().rows() < n || ls.getY().rows() < n || ls.getW().rows() < n) {
         c.violation("LeastSquares.buffersAfterResize", params(), vf::JO().i("J_rows", ls.getJ().rows()).i("J_cols", ls.getJ().cols()).i("want_cols_at_least", o.p).i("want_rows_at_least", n).done());
@@ -142,8 +149,10 @@ template <class S> void sequences(vf::Ctx& c, const char* tname, int depth, int 
       }
       load(ls, P, true);
       Vec x = solve(ls, P, o.solver == 2 ? 0 : o.solver);
+      // fresh solver given the same problem and the preconditioner the model says is configured
       LeastSquares<S> fresh(o.p);
       load(fresh, P, false);
+      { typename Problem<S>::Mat Am = mA.asDiagonal(); fresh.setPreconditionner(Am, mb); }
       Vec xf = solve(fresh, P, o.solver == 2 ? 0 : o.solver);
       for (int j = 0; j < o.p; ++j) c.obs((double)x(j));
       long double d = x.template cast<long double>().allFinite() ? (x - xf).template cast<long double>().norm() : HUGE_VALL;
@@ -160,19 +169,19 @@ template <class S> void sequences(vf::Ctx& c, const char* tname, int depth, int 
 
 }  // namespace
 
-// cases: L: 2 types x 8 p x 5 n ; S: 2 types x 54 first ops
-uint64_t vf_ncases(const std::string& tier) { return 80 + 108; }
+// cases: L: 2 types x 8 p x 5 n ; S: 2 types x 81 first ops
+uint64_t vf_ncases(const std::string& tier) { return 80 + 162; }
 
 void vf_run(uint64_t idx, const std::string& tier, vf::Ctx& c) {
   if (idx < 80) { int t = idx / 40, p = (idx % 40) / 5 + 1, ni = idx % 5; if (t == 0) lattice<double>(c, "double", p, ni); else lattice<float>(c, "float", p, ni); }
-  else { int k = (int)idx - 80; int depth = tier == "thorough" ? 4 : 3; if (k < 54) sequences<double>(c, "double", depth, k); else sequences<float>(c, "float", depth, k - 54); }
+  else { int k = (int)idx - 80; int depth = tier == "thorough" ? 4 : 3; if (k < 81) sequences<double>(c, "double", depth, k); else sequences<float>(c, "float", depth, k - 81); }
 }
 
 std::string vf_describe(const std::string& tier) {
   vf::JO o;
-  o.str("L", "estimate size 1..8 x data size {p,p+1,2p,50,500} x kappa {1,1e2,1e4,1e6} x magnitude {2^-27,2^-10,1,2^10} (float {2^-13,2^-6,1,2^6}) x Y {consistent, inconsistent, strongly inconsistent} x weights {none, alternating 1/4..4, one zero, one huge} x preconditioner {none, diagonal, diagonal+offset, identity+offset}; cases with kappa^2 eps > 0.05 are skipped (no digits in the normal equations)");
-  o.str("L_oracle", "Householder-QR solution in long double; |x - x_ref| <= 64 p eps kappa^2 (|x|+|Y|/smax); normal-equation residual; Cholesky vs SVD path");
-  o.i("S_depth", tier == "thorough" ? 4 : 3).str("S_ops", "problem(p in 1..3 via setEstimateSize, n in {p,p+2,8}, solver in {Cholesky, SVD, weighted}, preconditioner on/off) = 54 operations; buffers NaN-poisoned before each problem; result vs fresh solver within 256*9 eps");
+  o.str("L", "estimate size 1..8 x data size {p,p+1,2p,50,500} x kappa {1,1e2,3e2,1e4,1e6} x magnitude {2^-27,2^-10,1,2^10} (float {2^-13,2^-6,1,2^6}) x Y {consistent, inconsistent, strongly inconsistent} x weights {none, alternating 1/4..4, one zero, one huge} x preconditioner {none, diagonal, diagonal+offset, identity+offset}; cases with 8 p kappa^2 eps > 0.5 are skipped (no digits in the normal equations)");
+  o.str("L_oracle", "Householder-QR solution in long double; |x - x_ref| <= 8 p eps kappa^2 (|x|+|Y|/smax); normal-equation residual; Cholesky vs SVD path");
+  o.i("S_depth", tier == "thorough" ? 4 : 3).str("S_ops", "problem(p in 1..3 (setEstimateSize when it changes), n in {p,p+2,8}, solver in {Cholesky, SVD, weighted}, preconditioner {kept, setPreconditionner(A,b), setPreconditionner(A)}) = 81 operations; the model tracks the configured preconditioner; buffers NaN-poisoned before each problem; result vs fresh solver within 256*9 eps");
   return o.done();
 }
 
